@@ -212,6 +212,60 @@ async fn edge_timeouts(client: &Client, raw: &quinn::Connection, log: &EvLog, to
     Ok(())
 }
 
+/// Many requestor streams over the life of one topic: two dozen requestor objects are opened on the same topic,
+/// one after the other (each its own stream, each with a request-id counter that starts at 0), and all of them ask
+/// at the same time.  The replier answers every request with the asker's own text: each call must get its own
+/// reply, whatever number the server gave its stream.
+async fn many_streams(client: &Client, raw: &quinn::Connection, log: &EvLog, topic: &str) -> Result<()> {
+    const N: u64 = 24;
+    log.emit("case", json!({"run": 900_002, "calls": (0..N).map(|k| json!({"s": k + 1, "mode": "now"})).collect::<Vec<_>>()}));
+    let mut replier = register_raw_replier(raw, topic).await?;
+    let mut handles = vec![];
+    for c in 1..=N {
+        let mut r = client
+            .requestor(topic)
+            .with_request_encoder(StringCodec)
+            .with_reply_decoder(StringCodec)
+            .with_request_timeout(Duration::from_millis(3_000))?
+            .open()
+            .await?;
+        handles.push(tokio::spawn(async move {
+            let t0 = std::time::Instant::now();
+            let res = r.request(format!("call{c}:many")).await;
+            (c, res, t0.elapsed().as_millis() as u64)
+        }));
+    }
+    // echo: "re:" + the request, with the request's headers
+    let mut answered = 0;
+    let deadline = tokio::time::Instant::now() + Duration::from_secs(4);
+    while answered < N {
+        match tokio::time::timeout_at(deadline, replier.next()).await {
+            Ok(Some(Ok(Frame::Message(m)))) => {
+                let mut body = b"re:".to_vec();
+                body.extend_from_slice(&m.message);
+                replier.send(Frame::Message(MessagePayload { headers: m.headers.clone(), message: Bytes::from(body) })).await?;
+                answered += 1;
+            }
+            Ok(Some(Ok(_))) => {}
+            _ => break,
+        }
+    }
+    for h in handles {
+        let (c, r, ms) = match tokio::time::timeout(Duration::from_secs(10), h).await {
+            Ok(Ok(x)) => x,
+            _ => continue,
+        };
+        let (res, val_call) = match r {
+            Ok(v) => ("ok".to_string(), v.strip_prefix("re:").map(|x| call_of(x.as_bytes())).unwrap_or(0)),
+            Err(selium::std::errors::SeliumError::RequestTimeout) => ("timeout".to_string(), 0),
+            Err(e) => (format!("err: {e}"), 0),
+        };
+        log.emit("call_ret", json!({"c": c, "res": res, "val_call": val_call, "ms": ms, "timeout_ms": 3_000}));
+    }
+    log.emit("done", json!({}));
+    Ok(())
+}
+
 pub async fn cmd_reqrep(args: Vec<String>) -> Result<()> {
     let env = setup(&args, "reqrep")?;
     let seed: u64 = arg(&args, "--seed").and_then(|s| s.parse().ok()).unwrap_or_else(seed_from_env);
@@ -250,6 +304,11 @@ pub async fn cmd_reqrep(args: Vec<String>) -> Result<()> {
         let raw = raw_connect_trusted(env.server.addr, &env.certs).await?;
         let clog = EvLog::new(Box::new(std::io::sink()));
         if let Err(e) = edge_timeouts(&client, &raw, &clog, &format!("/verifrr{}/edge-timeouts", seed % 1000)).await {
+            clog.emit("harness_error", json!({"err": e.to_string()}));
+        }
+        env.log.append_block(&clog);
+        let clog = EvLog::new(Box::new(std::io::sink()));
+        if let Err(e) = many_streams(&client, &raw, &clog, &format!("/verifrr{}/many-streams", seed % 1000)).await {
             clog.emit("harness_error", json!({"err": e.to_string()}));
         }
         env.log.append_block(&clog);
